@@ -22,7 +22,12 @@ RULE = ("terminal model with mailbox sizes {24,32,48,64,128,256} and an "
         "with complete access; response latency 0..k polls; unrelated mail "
         "(emergency, one to three EoE/FoE/SoE/VoE messages) queued before "
         "the response; plus histories of 2-3 tasks transferring different "
-        "objects of one terminal concurrently. The real "
+        "objects of one terminal concurrently; servers that answer "
+        "complete-access uploads of 1-4 bytes expedited with the "
+        "complete-access bit mirrored; transfers that follow earlier ones "
+        "of the session (succeeded, aborted, abandoned, or given up while "
+        "another process held the terminal's record lock - lockf answering "
+        "EAGAIN). The real "
         "Terminal.sdo_write / sdo_read run over the real send loop; the "
         "server's object store, every mailbox message (lengths vs mailbox "
         "size, toggle bits) and the returned bytes are compared. a case = "
